@@ -50,6 +50,16 @@ CHECKS = {
         "convex faces <= 65 degrees across; table exactness demanded to degree 2n-3 (gaussian) / N (triangular).",
         "DESIGN.md section 6, C05",
     ),
+    "C16": (
+        "property-based testing (Hypothesis): independent geodesic oracle + per-edge reference differences/gradients",
+        "Exploration: generated grids (mixed, partial with boundary edges, n_face above/below n_node, MPAS-like sources with "
+        "supplied dvEdge/dcEdge in their own edge numbering) x face-/node-centred data of rank 1-4; edge_node_distances and "
+        "edge_face_distances are compared with great-circle distances computed from the source positions (supplied values "
+        "must be carried), difference/gradient with per-edge references over the edge's own neighbours, plus zero on "
+        "boundary edges and constant fields, unit norm when normalised, independence along leading dims, dims/grid.",
+        "Trusted: vlib/sphere.py (atan2 great-circle distance); the grid's own edge_node/edge_face rows define 'edge e'.",
+        "DESIGN.md section 6, C16",
+    ),
     "C17": (
         "property-based testing (Hypothesis): per-element reference reduction (differential oracle)",
         "Exploration: generated mixed-size meshes (incl. face-size gaps, padding columns, any face order) x node-centred arrays "
